@@ -81,11 +81,38 @@ def extra_step(rng, env, fermi, names, k):
     return []
 
 
+def twin_case(rng):
+    """near-identical arrays of different symmetry fused one after the other in one process
+    (call history matters to caches; validity must not depend on it)"""
+    import symmray as sr
+    from .c05 import twin_arrays
+
+    tw = twin_arrays(rng, "float64")
+    nd = tw["Z2"].ndim
+    groups = progs.rand_groups(rng, nd, max_groups=2)
+    if not any(len(g) > 1 for g in groups):
+        groups = [list(range(nd))[::-1][:2]]
+    order = rng.sample(sorted(tw), len(tw))
+    env = {f"x_{sym}": tw[sym] for sym in tw}
+    steps = [{"out": [f"f_{sym}"], "op": "fuse", "in": [f"x_{sym}"], "params": {"groups": groups}}
+             for sym in order if tw[sym].blocks]
+    res, env2 = impl.run_prog(env, steps)
+    produced = []
+    for st in steps:
+        v = env2.get(st["out"][0])
+        if isinstance(v, sr.AbelianArray):
+            produced.append((st["out"][0], "fuse", ser.enc_array(v, data=False), oracle.py_valid(v), len(v.blocks), []))
+    case = {"kind": "prog", "env": {k: ser.enc_val(v) for k, v in env.items()}, "steps": steps}
+    return dict(case=case, impl=stream.strip_py(res), oracle=None,
+                meta=dict(sym="twins", fermi=False, static=False, nsteps=len(steps), floaty=False),
+                nontrivial=True, op="program", triggers=[], produced=produced, floaty=False)
+
+
 def gen_cases(seed, chunk, n, tier):
     import symmray as sr
 
     rng = random.Random(seed * 7919 + chunk * 104729 + 1)
-    out = []
+    out = [twin_case(rng) for _ in range(max(1, n // 8))]
     for _ in range(n):
         sym = rng.choice(gen.SYMS)
         fermi = rng.random() < 0.5
